@@ -128,6 +128,14 @@ def syntactic_sinks(kind):
     add("error-value", "error c")
     add("catch-value", "do error c; catch c2 'no'; catch c 'yes'; end")
     add("json-ish", "string([c, <<<1 => c>>>])")
+    add("list-plus", "[[0] + c, list(c2) + c, [x for x in [0] + c]]")
+    add("list-plus-assign", "do def l_ = [0]; l_ += c; l_ += c2; l_; end")
+    add("module-object-members",
+        "do require Math; require List as Lx; [ls(Math), string(Lx), "
+        "[k for k in keys Lx]]; end")
+    add("module-object-for",
+        "do require Stat; def o_ = []; for k in keys Stat do "
+        "o_ !> append(k); end; o_; end")
     # a string that was compared, then modified in place, then put into a
     # set next to a string equal to its old text
     add("mutated-string-in-set",
@@ -410,7 +418,7 @@ def build_batch(base_seed, tier):
                            "/sim/pE", "/sim/pF", "/sim/pG"],
                           rng.randrange(2, 7))
         have = rng.sample(dirs, rng.randrange(2, len(dirs) + 1))
-        v = ("require pm; [pm->which, pm->n]")
+        v = ("require pm; [pm->which, pm->n, ls(pm), string(pm)]")
         progs.append({"id": n, "sink": "module-path-order", "kind": "set",
                       "cls": "str", "variants": [v, v, v],
                       "modpath": dirs, "have": have})
